@@ -4,6 +4,41 @@ import json, sys
 ALL = ["C%02d" % i for i in range(1, 21)]
 # id -> (category, technique, text, note, design_ref)
 CLAIMED = {
+ "C01": ("exploration",
+         "bounded-exhaustive input enumeration (all strings over tiny alphabets up to a length bound, periodic sources, window-distance grid, large sources) x compressor configurations, decoded by an independent reference decoder and both real decoders",
+         "Every enumerated source is compressed by every compressor configuration (fast / HC at several depths; package function, fresh and reused object) into a destination of exactly the bound and of bound+7 with spare capacity, and the block is decoded by ref.Decode, UncompressBlock and the portable decoder. Exhaustive within the stated alphabets and grids.",
+         "Trusted: ref.Decode. Coverage statement over the listed alphabets/grids/lengths, not over all byte slices up to 4 MiB.",
+         "DESIGN.md §4 C01"),
+ "C03": ("exploration",
+         "bounded-exhaustive enumeration of (src, len(dst), dict) triples (all short byte strings, all derivations of the block grammar over boundary classes, wide-copy placement grid, all truncations/substitutions) run on both decoders under guard-page placements with canaries",
+         "Each triple runs on the assembly and the portable decoder with src/dst/dict flush against PROT_NONE guard pages (both ends, two placements) and canaries in spare capacity; a fault, panic, canary damage, n>len(dst) or a crashed worker is a violation. The -tags noasm build runs the same stream.",
+         "Guard pages detect accesses past the flush end at byte granularity only on that end; the other end is covered by the second placement. Inputs longer than the grammar/grids are not covered.",
+         "DESIGN.md §4 C03"),
+ "C04": ("exploration",
+         "same bounded-exhaustive triple enumeration as C03, each result compared with an independent reference decoder of the block format (incl. dictionary resolution), two destination pre-fills",
+         "For every enumerated triple the reference decoder defines the expected bytes or the error class; both real decoders must return exactly those bytes/length or an error, identically for two different prior contents of dst.",
+         "Trusted: ref.Decode. Blocks ending right after a match and empty blocks are treated as unspecified.",
+         "DESIGN.md §4 C04"),
+ "C10": ("exploration",
+         "bounded-exhaustive source enumeration as C01 plus destination sizes below the bound; every emitted block checked by a strict validator of the end-of-block and offset rules and decoded by the reference decoder",
+         "Every block any compressor configuration emits for the enumerated sources (including partial successes with dst < bound) must satisfy ref.ValidateStrict (offsets 1..65535 within the output, final sequence literals-only, last 5 bytes literals, last match >= 12 bytes before the end) and decode to the source.",
+         "Trusted: ref.ValidateStrict / ref.Decode. Coverage statement over the listed sources.",
+         "DESIGN.md §4 C10"),
+ "C11": ("exploration",
+         "bounded-exhaustive enumeration of sources x every destination length 0..bound+2 (short sources) or boundary lengths x spare capacities {0,1,64} with canaries on both sides",
+         "For each (source, destination geometry, compressor): no panic, canaries intact, n <= len(dst), success whenever len(dst) >= bound, and any positive n decodes (reference decoder) to the whole source.",
+         "Trusted: ref.Decode. Reads outside src are not monitored (Go bounds checks turn them into panics, which are caught).",
+         "DESIGN.md §4 C11"),
+ "C12": ("exploration",
+         "same bounded-exhaustive triple enumeration as C03/C04; assembly and portable results compared case by case in one process, plus a per-shard digest of the whole case stream compared between the default build and the genuine -tags noasm build",
+         "For every enumerated triple the assembly decoder and an in-process copy of the working tree's portable decoder must agree on success/error, length and bytes; the -tags noasm binary replays the identical case stream and its digest must equal the in-process copy's (so the copy cannot hide a difference).",
+         "Only amd64 assembly is exercised on this host (arm/arm64 assembly cannot run here).",
+         "DESIGN.md §4 C12"),
+ "C13": ("model_checking",
+         "explicit-state search over call histories (Write(k)/Sum32/Reset, depth 3 quick / 4 thorough, no merging) of the real streaming hasher from initial and injected near-2^32 states with a reference hasher in lock-step; plus a real 4 GiB+k stream",
+         "All histories up to the depth bound over a 28-symbol alphabet that reaches every (buffered bytes 0..15, next write length) pair are executed on the real hasher from three start states; Sum32, Sum and one-shot ChecksumZero are compared with the reference after every call. Totals around 2^32 are reached both by state injection and by a real 4 GiB stream.",
+         "Trusted: ref.XXH (checked against published vectors on every run). Byte values from two patterns only.",
+         "DESIGN.md §4 C13"),
  "C19": ("exploration",
          "complete enumeration of the finite header space (2^24 headers + size variants + 2^17 first words) against a reference header rule",
          "Every one of the 2^16 descriptors x 256 checksum bytes is fed to ValidFrameHeader, and every descriptor x {correct,+1,^0x80} x 8 size values to a Reader; verdict and error class are compared with the header rule recomputed from the reference XXH32. The space is finite and enumerated completely, so within the stated subjects this is a decision, not a sample.",
